@@ -3,16 +3,24 @@
 (* INCLUDE expansion (property C15).                                       *)
 (*                                                                         *)
 (* A file system  fs : file id -> Seq(Line)  where a Line is either        *)
-(*    [k |-> "c"]                                   a chunk of content     *)
-(*                                                  (its id is <<f, i>>,   *)
-(*                                                  file and line index)   *)
-(*    [k |-> "i", t, st, q, cm, base]               an INCLUDE directive:  *)
+(*    [k |-> "c", word]                             a chunk of content     *)
+(*        (its id is <<f, i>>, file and line index; it is written out as   *)
+(*         <<f, i, e>> with e the line ending of the text that arrives)    *)
+(*        word BOOLEAN: the chunk mentions the word "include" somewhere    *)
+(*             that is no directive (a comment, a commented-out directive) *)
+(*    [k |-> "i", t, st, q, cm, base, alt, altdir]  an INCLUDE directive:  *)
 (*        t    target file id (0 = a name that denotes no file)            *)
 (*        st   "rel" | "abs"        how the path is written                *)
 (*        q    "none" | "single" | "double"   quoting of the name          *)
 (*        cm   BOOLEAN              a trailing # comment on the line       *)
 (*        base directory id: a relative path is the string that denotes t  *)
-(*             *when joined onto directory base* (and nothing otherwise)   *)
+(*             *when joined onto directory base*                           *)
+(*        alt, altdir  a decoy: joined onto directory altdir (# base) the  *)
+(*             same string denotes the existing file alt (0: no decoy), a  *)
+(*             one-chunk file that the property never reaches; joined onto *)
+(*             any other directory the string denotes nothing              *)
+(* nl[f] is the line ending of file f ("lf" | "crlf"): substitution is     *)
+(* verbatim, every chunk keeps the line breaks of the file it stands in.   *)
 (* Directories are abstract ids; dir[f] is the directory of file f, file 1 *)
 (* is the root Mapfile (or the text given to loads when entry = "string"). *)
 (*                                                                         *)
@@ -45,12 +53,20 @@ CONSTANTS
     Mode,            \* "all" (exhaustive) | "walk" (simulation: one random choice per action)
     ExactDefects,    \* TRUE: a graph is started only with exactly MaxBack / MaxMissing defects
     EnvChdir,        \* TRUE: the environment may change the working directory while expanding
-    ResolveAgainst   \* what the machine joins a relative path onto: "root" | "cwd" | "includer"
+    Nls,             \* line endings a file may have: subset of {"lf", "crlf"}
+    Words,           \* subset of BOOLEAN: may a chunk mention the word "include"
+    MaxDecoy,        \* decoy files (same relative name, other directory)
+    ResolveAgainst,  \* what the machine joins a relative path onto: "root" | "cwd" | "includer" |
+                     \*   "includer-first" | "cwd-first" (that directory if the name exists there, else the root's)
+    ReadMode,        \* "verbatim" | "translate-included" (line ends of included files turned into LF)
+    DepthGuard       \* "directive": the limit is tested when a directive is met at level MaxNested |
+                     \* "word": on entering a level-MaxNested file that mentions the word "include"
 
 VARIABLES
     phase,           \* "build" | "run"
     n,               \* number of files
-    fs, dir, level, parent,
+    fs, dir, level, parent, nl,
+    ndecoy,
     cur,             \* file under construction (files are filled in breadth-first order)
     spine,           \* deepest file of the branch that has to reach level want
     want, cap,
@@ -60,14 +76,17 @@ VARIABLES
     cwd,             \* current working directory
     stack,           \* Seq([file, line])
     depth,           \* the nesting counter of the machine
-    out,             \* Seq(<<file, line>>): chunks written so far
+    out,             \* Seq(<<file, line, line ending>>): chunks written so far
     status           \* "idle" | "running" | "done" | "errDepth" | "errMissing"
 
-gvars == <<n, fs, dir, level, parent, cur, spine, want, cap, nback, nmiss, entry, cwd0>>
+gvars == <<n, fs, dir, level, parent, nl, ndecoy, cur, spine, want, cap, nback, nmiss, entry, cwd0>>
 mvars == <<stack, depth, out, status>>
 vars  == <<phase, gvars, cwd, mvars>>
 
-Missing  == 0
+Missing   == 0
+DecoyBase == 100                     \* decoy files have ids above DecoyBase; their content is one chunk
+IsDecoy(f) == f > DecoyBase
+Lines(f)  == IF IsDecoy(f) THEN <<[k |-> "c", word |-> FALSE]>> ELSE fs[f]
 Terminal == {"done", "errDepth", "errMissing"}
 
 Pick(S) == IF Mode = "walk" THEN {RandomElement(S)} ELSE S
@@ -79,8 +98,12 @@ Pick(S) == IF Mode = "walk" THEN {RandomElement(S)} ELSE S
 \* the working directory of the call
 PropBase == IF entry = "file" THEN dir[1] ELSE cwd0
 
-PropResolve(ln) == IF ln.st = "abs" THEN ln.t
-                   ELSE IF ln.base = PropBase THEN ln.t ELSE Missing
+\* what the name written in directive ln denotes when a relative name is joined onto directory d
+Denotes(ln, d) == IF ln.st = "abs" THEN ln.t
+                  ELSE IF d = ln.base THEN ln.t
+                  ELSE IF ln.alt # 0 /\ d = ln.altdir THEN ln.alt ELSE Missing
+
+PropResolve(ln) == Denotes(ln, PropBase)
 
 IncIdx(f)  == {i \in 1..Len(fs[f]) : fs[f][i].k = "i"}
 HasInc(f)  == IncIdx(f) # {}
@@ -101,7 +124,7 @@ RECURSIVE Flat(_, _, _)
 Flat(f, d, i) ==
     IF i > Len(fs[f]) THEN <<>>
     ELSE LET ln == fs[f][i]
-             here == IF ln.k = "c" THEN << <<f, i>> >>
+             here == IF ln.k = "c" THEN << <<f, i, nl[f]>> >>
                      ELSE IF d < PropNested /\ PropResolve(ln) # Missing
                           THEN Flat(PropResolve(ln), d + 1, 1) ELSE <<>>
          IN  here \o Flat(f, d, i + 1)
@@ -113,7 +136,7 @@ RECURSIVE Full(_, _, _, _)
 Full(f, d, i, bound) ==
     IF i > Len(fs[f]) THEN <<>>
     ELSE LET ln == fs[f][i]
-             here == IF ln.k = "c" THEN << <<f, i>> >>
+             here == IF ln.k = "c" THEN << <<f, i, nl[f]>> >>
                      ELSE IF d < bound /\ PropResolve(ln) # Missing
                           THEN Full(PropResolve(ln), d + 1, 1, bound) ELSE <<>>
          IN  here \o Full(f, d, i + 1, bound)
@@ -135,23 +158,35 @@ AncOrSelf(f) == IF f = 0 THEN {} ELSE {f} \cup AncOrSelf(parent[f])
 RoomLine == Len(fs[cur]) < MaxLines /\ (SpinePending => Len(fs[cur]) + 1 < MaxLines)
 RoomInc  == RoomLine /\ Fan(cur) < MaxFan /\ (SpinePending => Fan(cur) + 1 < MaxFan)
 
+\* a decoy may be planted for a relative name: next to the including file when that is not the
+\* directory the name is written against, else in any other directory
+AltDirs == IF dir[cur] # PropBase THEN {dir[cur]} ELSE Dirs \ {PropBase}
+Decoys(st) == IF st = "rel" /\ ndecoy < MaxDecoy /\ AltDirs # {}
+              THEN {<<0, 0>>} \cup {<<DecoyBase + ndecoy + 1, ad>> : ad \in Pick(AltDirs)}
+              ELSE {<<0, 0>>}
+
 Directive(t) ==
-    {[k |-> "i", t |-> t, st |-> st, q |-> q, cm |-> cm, base |-> PropBase] :
-        st \in Pick(Styles), q \in Pick(Quotes), cm \in Pick(Cms)}
+    {[k |-> "i", t |-> t, st |-> st, q |-> q, cm |-> cm, base |-> PropBase, alt |-> dc[1], altdir |-> dc[2]] :
+        st \in Pick(Styles), q \in Pick(Quotes), cm \in Pick(Cms), dc \in Pick(Decoys("rel"))}
+\* (a decoy on an absolute name would be meaningless: dropped below)
+Norm(ln) == IF ln.st = "abs" THEN [ln EXCEPT !.alt = 0, !.altdir = 0] ELSE ln
+Planted(ln) == IF Norm(ln).alt # 0 THEN 1 ELSE 0
 
 AddContent ==
     /\ phase = "build" /\ RoomLine /\ ~LastIsContent(cur)
-    /\ fs' = [fs EXCEPT ![cur] = Append(@, [k |-> "c"])]
-    /\ UNCHANGED <<phase, n, dir, level, parent, cur, spine, want, cap, nback, nmiss, entry, cwd0, cwd, mvars>>
+    /\ \E w \in Pick(Words) : fs' = [fs EXCEPT ![cur] = Append(@, [k |-> "c", word |-> w])]
+    /\ UNCHANGED <<phase, n, dir, level, parent, nl, ndecoy, cur, spine, want, cap, nback, nmiss, entry, cwd0, cwd, mvars>>
 
 AddFile ==
     /\ phase = "build"
     /\ level[cur] < MaxDepth
     /\ Fan(cur) < MaxFan /\ Len(fs[cur]) < MaxLines
     /\ IF SpinePending THEN n + 1 <= cap ELSE n + 1 + Need <= cap
-    /\ \E d \in Pick(Dirs) : \E ln \in Directive(n + 1) :
-         /\ fs' = Append([fs EXCEPT ![cur] = Append(@, ln)], <<>>)
+    /\ \E d \in Pick(Dirs), e \in Pick(Nls) : \E ln \in Directive(n + 1) :
+         /\ fs' = Append([fs EXCEPT ![cur] = Append(@, Norm(ln))], <<>>)
          /\ dir' = Append(dir, d)
+         /\ nl' = Append(nl, e)
+         /\ ndecoy' = ndecoy + Planted(ln)
     /\ n' = n + 1
     /\ level' = Append(level, level[cur] + 1)
     /\ parent' = Append(parent, cur)
@@ -161,20 +196,23 @@ AddFile ==
 AddBack ==
     /\ phase = "build" /\ RoomInc /\ nback < MaxBack
     /\ \E a \in Pick(AncOrSelf(cur)) : \E ln \in Directive(a) :
-         fs' = [fs EXCEPT ![cur] = Append(@, ln)]
+         /\ fs' = [fs EXCEPT ![cur] = Append(@, Norm(ln))]
+         /\ ndecoy' = ndecoy + Planted(ln)
     /\ nback' = nback + 1
-    /\ UNCHANGED <<phase, n, dir, level, parent, cur, spine, want, cap, nmiss, entry, cwd0, cwd, mvars>>
+    /\ UNCHANGED <<phase, n, dir, level, parent, nl, cur, spine, want, cap, nmiss, entry, cwd0, cwd, mvars>>
 
 AddMissing ==
     /\ phase = "build" /\ RoomInc /\ nmiss < MaxMissing
-    /\ \E ln \in Directive(Missing) : fs' = [fs EXCEPT ![cur] = Append(@, ln)]
+    /\ \E ln \in Directive(Missing) :
+         /\ fs' = [fs EXCEPT ![cur] = Append(@, Norm(ln))]
+         /\ ndecoy' = ndecoy + Planted(ln)
     /\ nmiss' = nmiss + 1
-    /\ UNCHANGED <<phase, n, dir, level, parent, cur, spine, want, cap, nback, entry, cwd0, cwd, mvars>>
+    /\ UNCHANGED <<phase, n, dir, level, parent, nl, cur, spine, want, cap, nback, entry, cwd0, cwd, mvars>>
 
 NextFile ==
     /\ phase = "build" /\ cur < n /\ ~SpinePending
     /\ cur' = cur + 1
-    /\ UNCHANGED <<phase, n, fs, dir, level, parent, spine, want, cap, nback, nmiss, entry, cwd0, cwd, mvars>>
+    /\ UNCHANGED <<phase, n, fs, dir, level, parent, nl, ndecoy, spine, want, cap, nback, nmiss, entry, cwd0, cwd, mvars>>
 
 Start ==
     /\ phase = "build" /\ cur = n /\ ~SpinePending
@@ -193,19 +231,32 @@ Build == AddContent \/ AddFile \/ AddFile2 \/ AddFile3 \/ AddBack \/ AddMissing 
 (* 2. The expansion machine                                                *)
 
 Top   == stack[Len(stack)]
-AtEnd == Top.line > Len(fs[Top.file])
-Line  == fs[Top.file][Top.line]
+AtEnd == Top.line > Len(Lines(Top.file))
+Line  == Lines(Top.file)[Top.line]
 Advance(s) == [s EXCEPT ![Len(s)].line = @ + 1]
+DirOf(f) == IF IsDecoy(f) THEN 0 ELSE dir[f]        \* (a decoy holds no directive: never consulted)
 
-MachBase == CASE ResolveAgainst = "root"     -> PropBase
-              [] ResolveAgainst = "cwd"      -> cwd
-              [] ResolveAgainst = "includer" -> dir[Top.file]
-Resolve(ln) == IF ln.st = "abs" THEN ln.t
-               ELSE IF ln.base = MachBase THEN ln.t ELSE Missing
+Resolve(ln) ==
+    CASE ResolveAgainst = "root"     -> Denotes(ln, PropBase)
+      [] ResolveAgainst = "cwd"      -> Denotes(ln, cwd)
+      [] ResolveAgainst = "includer" -> Denotes(ln, DirOf(Top.file))
+      [] ResolveAgainst = "includer-first" ->
+            IF Len(stack) > 1 /\ Denotes(ln, DirOf(Top.file)) # Missing
+            THEN Denotes(ln, DirOf(Top.file)) ELSE Denotes(ln, PropBase)
+      [] ResolveAgainst = "cwd-first" ->
+            IF Denotes(ln, cwd) # Missing THEN Denotes(ln, cwd) ELSE Denotes(ln, PropBase)
+
+\* the line ending with which a chunk of file f arrives in the result
+NlOf(f) == IF IsDecoy(f) THEN "lf"
+           ELSE IF ReadMode = "translate-included" /\ Len(stack) > 1 THEN "lf" ELSE nl[f]
+
+Mentions(f) == \E i \in 1..Len(Lines(f)) : Lines(f)[i].k = "i" \/ Lines(f)[i].word
+\* DepthGuard = "word": the limit fires on entering a file of level MaxNested that mentions the word
+WordTrap(ln) == DepthGuard = "word" /\ depth + 1 = MaxNested /\ Mentions(Resolve(ln))
 
 Copy ==
     /\ status = "running" /\ ~AtEnd /\ Line.k = "c"
-    /\ out' = Append(out, <<Top.file, Top.line>>)
+    /\ out' = Append(out, <<Top.file, Top.line, NlOf(Top.file)>>)
     /\ stack' = Advance(stack)
     /\ UNCHANGED <<phase, gvars, cwd, depth, status>>
 
@@ -213,14 +264,18 @@ Enter ==
     /\ status = "running" /\ ~AtEnd /\ Line.k = "i"
     /\ depth < MaxNested
     /\ Resolve(Line) # Missing
+    /\ ~WordTrap(Line)
     /\ stack' = Append(stack, [file |-> Resolve(Line), line |-> 1])
     /\ depth' = depth + 1
     /\ UNCHANGED <<phase, gvars, cwd, out, status>>
 
 Fail ==
     /\ status = "running" /\ ~AtEnd /\ Line.k = "i"
-    /\ depth >= MaxNested \/ Resolve(Line) = Missing
-    /\ status' = IF depth >= MaxNested THEN "errDepth" ELSE "errMissing"   \* the limit is tested first
+    /\ \/ depth >= MaxNested
+       \/ Resolve(Line) = Missing
+       \/ WordTrap(Line)
+    /\ status' = IF depth >= MaxNested THEN "errDepth"                     \* the limit is tested first
+                 ELSE IF Resolve(Line) = Missing THEN "errMissing" ELSE "errDepth"
     /\ UNCHANGED <<phase, gvars, cwd, stack, depth, out>>
 
 Leave ==
@@ -247,6 +302,8 @@ Init ==
     /\ dir \in {<<d>> : d \in Dirs}
     /\ level = <<0>>
     /\ parent = <<0>>
+    /\ nl \in {<<e>> : e \in Nls}
+    /\ ndecoy = 0
     /\ cur = 1
     /\ spine = 1
     /\ want \in Wants
@@ -276,10 +333,10 @@ SpecNextFair == Init /\ [][Next]_vars /\ WF_vars(Next)
 
 TypeOK ==
     /\ phase \in {"build", "run"}
-    /\ n \in 1..cap /\ cap <= MaxFiles /\ Len(fs) = n /\ Len(dir) = n /\ Len(level) = n /\ Len(parent) = n
+    /\ n \in 1..cap /\ cap <= MaxFiles /\ Len(fs) = n /\ Len(dir) = n /\ Len(level) = n /\ Len(parent) = n /\ Len(nl) = n
     /\ \A f \in 1..n : /\ Len(fs[f]) <= MaxLines /\ Fan(f) <= MaxFan /\ level[f] <= MaxDepth
-                       /\ \A i \in IncIdx(f) : fs[f][i].t \in 0..n
-    /\ nback <= MaxBack /\ nmiss <= MaxMissing
+                       /\ \A i \in IncIdx(f) : fs[f][i].t \in 0..n /\ (fs[f][i].alt # 0 => fs[f][i].altdir # fs[f][i].base)
+    /\ nback <= MaxBack /\ nmiss <= MaxMissing /\ ndecoy <= MaxDecoy
     /\ status \in {"idle", "running"} \cup Terminal
     /\ (phase = "build") = (status = "idle")
 
@@ -311,7 +368,7 @@ Halts == (status = "running") ~> (status \in Terminal)
 Outcome == IF Allowed = {} THEN "ok" ELSE "error"
 
 Emit == status \in Terminal =>
-    PrintT(ToJson([n |-> n, dir |-> dir, level |-> level, fs |-> fs, entry |-> entry, cwd0 |-> cwd0,
+    PrintT(ToJson([n |-> n, dir |-> dir, level |-> level, nl |-> nl, ndecoy |-> ndecoy, fs |-> fs, entry |-> entry, cwd0 |-> cwd0,
                    base |-> PropBase,
                    outcome |-> Outcome,
                    allowed |-> Allowed,
